@@ -195,7 +195,7 @@ def g_case(c):
         glist(gnat(max(x, 0)) for x in a["returned"]),
         gobjs(b["objects"]), glist(gcall(e) for e in b["log"]), glist(gnat(max(x, 0)) for x in b["order"]))
     first = "None" if c.get("first") is None else f"(Some {gnat(c['first'])})"
-    return f"(Case {heap} {gnat(c['root'])} {first} {ans})"
+    return f"(Case {heap} {gnat(c['root'])} {first} once {ans})"
 
 
 # ------------------------------------------------------------------ oracle (independent of the model)
@@ -292,13 +292,25 @@ def oracle(case):
     kinds = [e["k"] for e in b["log"]]
     ok_order = (seq[-1:] == [("body", case["root"])] and [k for k, _ in seq].count("body") == 1
                 and "post" not in kinds[len([k for k in kinds if k == "post"]):])
-    npre = len(execs) - len(init)
-    if not ok_order or npre < 0 or execs[npre:] != init or sorted(execs[:npre]) != sorted(pre):
+    # every lightweight task exactly once: the pre-tasks (any order), then the init tasks that have not run yet,
+    # in the order they are first listed, then the body
+    want_init = []
+    for x in init:
+        if x not in pre and x not in want_init:
+            want_init.append(x)
+    npre = len(pre)
+    if ok_order and sorted(execs[:npre]) == sorted(pre) and execs[npre:] == want_init:
+        pass
+    elif ok_order and sorted(execs[:npre]) == sorted(pre) and execs[npre:] == init:
+        # every entry of the init-task list was executed: some lightweight task ran twice
+        out.append(dict(key="C13:params:init-task-twice",
+                        what="a lightweight task listed twice as init task, or both attached as pre-task and given as "
+                             "init task, was executed twice when the task was loaded from its parameter file",
+                        data=dict(data, executed=seq, pretasks=sorted(pre), init=init)))
+    else:
         out.append(dict(key="C13:params:sequence",
                         what="not: every pre-task once, then the init tasks in order, then the body",
                         data=dict(data, executed=seq, pretasks=sorted(pre), init=init)))
-    elif len(set(init)) == len(init) and not (set(init) & pre) and len(set(execs)) != len(execs):
-        out.append(dict(key="C13:params:twice", what="a lightweight task ran twice", data=dict(data, executed=seq)))
     return out
 
 
@@ -365,6 +377,7 @@ def run_cases(c, cases):
     for k, r in enumerate(res):
         for case, a in zip(chunks[k], r["answers"]):
             case["raw"] = a
+    return next(r["probe"] for r in res if r.get("probe") is not None)
 
 
 HEADER = ("From Coq Require Import ZArith NArith List Bool String.\n"
@@ -379,6 +392,7 @@ def run(c: Check):
               "overlap with pre-tasks), 30% with a first instance() call on another node sharing the ObjectStore; "
               "classes replaced with probability 0/0.25/0.5/1 per case by disguised ones whose objects are falsy "
               "(__len__ 0, __bool__ False) or equal/hashed by content (NZ NQ MB PZ PB PQ TZ); "
+              "a directed probe (init_tasks=[p, p]) tells whether the loader runs each lightweight task once; "
               "each case goes through instance() and through the parameter file; non-trivial = a shared "
               "configuration or a cycle, and at least one pre-task; distinct by heap")
     c.build()
@@ -395,7 +409,11 @@ def run(c: Check):
         cases.extend(json.load(open(gold)))
     for _ in range(n):
         cases.append(gen_case(c.rng))
-    run_cases(c, cases)
+    probe = run_cases(c, cases)
+    once = bool(probe["once"])
+    c.count("tree:loader-runs-" + ("each-lightweight-task-once" if once else "every-init-task-entry"))
+    c.extra["probe"] = probe
+    header = HEADER + "Definition once := %s.\n" % ("true" if once else "false")
     good = []
     for case in cases:
         a = case["raw"]
@@ -445,12 +463,12 @@ def run(c: Check):
                 c.violation(v["key"], v["what"], v["data"])
     c.samples = [dict(nodes=x["nodes"], first=x.get("first"), instance_logs=x["raw"]["instance"]["logs"],
                       params_log=x["raw"]["params"]["log"]) for x in good[:2]]
-    bad = c.corr_shards("corr", HEADER, good, g_case, "check_case", shard=100)
+    bad = c.corr_shards("corr", header, good, g_case, "check_case", shard=100)
     if bad:
         # diagnosis: do the disagreeing cases match the variant that calls __post_init__ before the attribute copy?
         sub = [good[i] for i in bad[:200]]
         saved = list(c.obligations)
-        bad_pf = c.corr_shards("diag", HEADER, sub, g_case, "check_case_post_first", shard=100)
+        bad_pf = c.corr_shards("diag", header, sub, g_case, "check_case_post_first", shard=100)
         c.obligations = saved
         c.extra["disagreeing_total"] = len(bad)
         c.extra["disagreeing_cases_match_post_init_before_copy"] = len(sub) - len(bad_pf)
